@@ -148,6 +148,20 @@ def _mode_of(guards, mode):
                 (pos if pol else neg).append(other[1])
     if len(pos) == 1 and pos[0] in ("sum", "delta"):
         return pos[0]
+    if not pos and guards:
+        # compound tests (`mode not in ('delta', 'sum')` negated, ...): decided propositionally
+        from .boolalg import implies, conj
+        is_sum, is_delta = ir.cmp_term("==", mode, ("const", "sum")), ir.cmp_term("==", mode, ("const", "delta"))
+        try:
+            c = conj(tuple(guards))
+            if implies(c, is_sum):
+                return "sum"
+            if implies(c, is_delta):
+                return "delta"
+            if implies(c, ("and", (ir.negate(is_sum), ir.negate(is_delta)))):
+                return "other"
+        except (ValueError, RecursionError):
+            pass
     if not pos and set(neg) >= {"sum", "delta"}:
         return "other"
     if pos:
